@@ -16,7 +16,7 @@ from .common import Report, jhash
 from .tlc import run_tlc, require_ok
 
 U = 8.0  # spec coefficient unit: 1/8
-MC_ACTIONS = ["DoRegister", "DoAdd", "DoRemove", "DoUpdate", "DoQuery", "RoundTrip", "Finish"]
+MC_ACTIONS = ["DoRegister", "DoAdd", "DoRemove", "DoUpdate", "DoUpdateUnknown", "DoQuery", "RoundTrip", "Finish"]
 
 
 def close(x, n, tol=1e-9):
@@ -212,6 +212,29 @@ def _replay(b, first_only=False):
                         net.update_constraint(step["name"], cur, step["limit"], step["newname"] or None)
                     except KeyError:
                         res = "refused"
+                elif op == "update_unknown":
+                    cur = build_current(step["e"], step["vals"], out)
+                    try:
+                        net.update_constraint(step["name"], cur, step["limit"], step["newname"] or None)
+                    except KeyError:
+                        res = "refused"
+                    # the old constraint is gone (as the code does) or still there (a rollback): either way the network
+                    # is aligned and usable
+                    d1, d2 = _project_mismatch(net, step["post"]), _project_mismatch(net, step["alt"])
+                    if res == "refused" and d1 is not None and d2 is not None:
+                        out.append({"field": d1[0], "key": "update_unknown:%s" % d1[0], "step": n, "op": _brief(step),
+                                    "spec": [d1[1], "or", d2[1]], "impl": d1[2]})
+                        break
+                    if res == "refused" and net.constraint_matrix is not None:
+                        sched = np.array([b["sched"][s] for s in net.station_ids], dtype=float)
+                        got = np.asarray(net.constraint_current(sched))
+                        if got.shape[0] != len(net.constraint_index) or len(net.magnitudes) != len(net.constraint_index):
+                            out.append({"field": "alignment", "key": "update_unknown:alignment", "step": n, "op": _brief(step),
+                                        "spec": "rows = limits = names", "impl": [list(got.shape), len(net.magnitudes),
+                                                                                 len(net.constraint_index)]})
+                            break
+                    if res == "refused":
+                        continue
                 elif op == "roundtrip":
                     net = ChargingNetwork.from_json(net.to_json())
                 elif op == "query":
@@ -228,6 +251,21 @@ def _replay(b, first_only=False):
                                     "spec": spec, "impl": np.asarray(got).astype(complex).real.tolist()
                                     if got.dtype != object else repr(got)})
                         break
+                    # the same selection of rows and columns with the documented option linear=True: entry (i, k) is
+                    # |sum_s |coef_i[s]| * x[s, k]| for the requested constraints (network order) and periods
+                    post = step["post"]
+                    if post["locked"]:
+                        rows = [i for i, nm in enumerate(post["names"]) if step["all"] or nm in step["asked"]]
+                        cols = step["times"] or list(range(b["nt"]))
+                        lin = [[abs(sum(abs(post["matrix"][i][j] / U) * sched[j][k] for j in range(len(post["stations"]))))
+                                for k in cols] for i in rows]
+                        gl = np.asarray(net.constraint_current(sched, constraints=asked, time_indices=step["times"] or None,
+                                                               linear=True))
+                        if not (gl.shape == (len(rows), len(cols)) and all(
+                                close(gl[i][k], lin[i][k]) for i in range(len(rows)) for k in range(len(cols)))):
+                            out.append({"field": "result(linear)", "key": "query:result-linear", "step": n, "op": _brief(step),
+                                        "spec": lin, "impl": gl.tolist() if gl.dtype != object else repr(gl)})
+                            break
                 else:  # pragma: no cover
                     raise ValueError("unknown op %r" % op)
             except Exception as ex:  # noqa  an exception the spec does not foresee
